@@ -73,6 +73,57 @@ CHECKS['C08'] = dict(
         'correspondence runs (C01, C03..C16), not by this check; -M below |d|+8 underflows in the C and is outside the property; Coq kernel; translator; extraction; gcc.',
    technique='Coq proof (dotify loop invariant, putname/readname round trip, composition with codec and matcher theorems), differential correspondence',
    design='4/C08')
+CHECKS['C01'] = dict(
+   text='PARTIAL. Coq theorems about both fragment protocols as abstract transition systems with ghost packet numbers and an adversarial '
+        'network (every chunk, header and ack ever sent may be lost, duplicated, re-ordered): under the network hypothesis N* (delay <= 3 '
+        'packets, query freshness <= 2 packets, receiver <= 5 packets behind, <= 16 fragments) every buffer handed to uncompress() on either '
+        'side is the complete in-order fragment sequence of ONE packet (inductive invariant, unbounded executions); fragments tile the '
+        'packet bytes; raw-mode frame decodes to its payload; non-vacuity scripts; and a proved WITNESS that outside N* the reassembly logic '
+        'alone mis-assembles (integrity then rests on zlib Adler-32, which is not modelled) -- so the "for all network behaviours" part of the '
+        'statement is not proved. Tie: abstract rules proved equal to the decision expressions of Server.v/Client.v; the composed model '
+        '(Tunnel.v = Client.v + Server.v + network) is run against the two real programs on random fault schedules over all configurations, '
+        'and an implementation-level oracle (real zlib) checks every tun write against the packets offered at the peer.',
+   note='Trusts: the abstraction from Server.v/Client.v to ProtoUp.v/ProtoDown.v (by inspection plus the rule-tie lemmas; the big dispatcher '
+        'functions are not proved to refine the abstract steps); zlib as an oracle (unz (zc p) = Some p); one client session; Coq kernel; translator; extraction; gcc.',
+   technique='Coq proof (inductive invariant over an adversarial-network transition system, both directions) + refutation witness outside the hypothesis; whole-system differential correspondence and integrity oracle',
+   design='4/C01')
+CHECKS['C10'] = dict(
+   text='Coq theorems for every legal label list, id, type and payload up to 4098 bytes: the query datagram (with or without EDNS0) and the '
+        'answer datagram write_dns builds for NULL/PRIVATE/TXT/CNAME/A/MX/SRV, and the NS / A auxiliary answers, are accepted by an independent strict '
+        'RFC 1035 parser written in Gallina (exact section counts, backward compression pointers to label starts only, labels <= 63, names <= 255, '
+        'exact RDLENGTH and per-type RDATA shape, TXT strings tile RDATA) with the expected id, question, owner names and record types. The '
+        'encoder model is tied to dns.c/iodined.c by byte-equality correspondence on the datagrams the real code emits; the strict parser is tied '
+        'to an independent Python parser on malformed/well-formed corpora and mutants of real datagrams.',
+   note='Trusts: the strict parser as the reading of RFC 1035 (two independent implementations agree); the root question name and tunnel domains '
+        'over 252 wire bytes are outside the theorems (proved not well-formed, unreachable in the server); byte-ness of non-TXT RDATA rests on the '
+        'correspondence; Coq kernel; translator; extraction; gcc.',
+   technique='Coq proof (encoder output accepted by a strict Gallina RFC 1035 parser, for all names/payloads), differential correspondence, second independent parser',
+   design='4/C10')
+CHECKS['C02'] = dict(
+   text='PARTIAL. Coq theorems: (A) for both fragment/ack state machines (abstract transition systems of C01), on a clean path every round '
+        'makes progress; any sequence of packets of <= 16 fragments accepted while the receiver is at most 3 packets behind is handed to '
+        'uncompress() exactly once each, complete, in the order accepted, after exactly n rounds per packet, ending synchronised; from any '
+        'state reachable under N* with a packet in flight and the receiver at most 4 behind the packet is completed within n-j rounds '
+        '(upstream). (B) for every state of the client model, four consecutive select timeouts end the sending state and the select timeout is '
+        'positive and bounded. NOT proved: bounded TIME for the composition of both select loops with the network, the server sweep / lazy hold, '
+        'downstream recovery from arbitrary states, resynchronisation when 5..8 packets behind. Those are decided by correspondence of '
+        'Client.v/Server.v/Tunnel.v with the real programs on random fault schedules in virtual time plus an implementation-level oracle: '
+        'clean-path exactly-once-in-order, and after a fault prefix delivery resumes (at most 4 leading packets lost) within the schedule.',
+   note='Trusts: abstraction of the concrete models to the abstract protocols (inspection + rule-tie lemmas of C01); virtual time (wrapped '
+        'time/select) stands for real time; one client session; zlib as oracle; Coq kernel; translator; extraction; gcc.',
+   technique='Coq proof (progress/exactly-once by induction over clean rounds; timer state machine lemmas) + whole-system differential correspondence and timed oracle on the real programs',
+   design='4/C02')
+CHECKS['C14'] = dict(
+   text='Coq theorems over arbitrary event histories of the server model (Server.v: DNS queries, raw frames, tun packets, sweeps, ticks; any '
+        'oracle for login/zlib): multiset ledger invariant -- for every query instance (address incl. port, id, name, type), answers sent + '
+        'copies still held <= copies received; events that carry no query only answer held queries; at most two queries (plus one remembered '
+        'duplicate each) held per session; lazy mode answers the older held query first, immediate mode answers at once or parks for the sweep; '
+        'id 0 ping/data queries are ignored and never held. Tied to iodined.c by per-event correspondence on server histories and an '
+        'implementation-level multiset oracle that parses every emitted datagram and matches it against unanswered received queries.',
+   note='Trusts: the oracle matches on (address, id, dotted question name, type); a label containing a dot byte is compared as dotted text; '
+        'Coq kernel; translator; extraction; gcc.',
+   technique='Coq proof (ledger invariant by Permutation/multiset counting over every handler, induction over histories), differential correspondence, implementation-level multiset oracle',
+   design='4/C14')
 NOT_YET = {}
 
 def main():
